@@ -194,6 +194,7 @@ def generate_c(contract, ov):
         own0 = z3.Const("own0", z3.ArraySort(C.Obj, z3.IntSort()))
         st = st.with_own(own0)
         info["own0"] = own0
+        st = st.gset("caller_kept", tuple(a for a in args if z3.is_expr(a) and a.sort() == C.Obj))
     outcomes = ex.run_function(decl, args, st, lambda v, st2: [("return", v, st2)])
     name0 = "%s[%s]" % (contract.cid, ov)
     obs = []
